@@ -42,17 +42,20 @@ Definition out_thread (p : profile) (d : dump) (tc : thread * callstack) : threa
                     | None => Some [] end |}.
 
 (* enumeration membership: the tables translate/c14_reason.py regenerates from minidump-common/src/errors *)
-Definition run_case (p : profile) (d : dump) : c14_out :=
+Definition run_case_nm (nm : Z -> Z -> option (list Z)) (p : profile) (d : dump) : c14_out :=
   let o := os_of_platform (d_platform d) in
   let c := cpu_of_arch (d_arch d) in
   {| o_threads := map (out_thread p d) (combine (d_threads d) (threads_of d));
      o_requesting := match requesting_thread d with Some i => Z.of_nat i | None => -1 end;
      o_exc := match d_exc d with
               | Some e => let r := crash_reason gen_lk o c e in
-                          Some (crash_address o c e, family_index (fst r), snd r, reason_string r)
+                          Some (crash_address o c e, family_index (fst r), snd r, reason_string_nm nm r)
               | None => None end;
      o_pid := process_id d; o_ctime := process_create_time d; o_time := d_time d;
      o_modules := read_modules (d_modules d); o_unloaded := read_unloaded (d_unloaded d) |}.
+
+(* without the names of the two large Windows tables (the text of the four families that need them is then not compared) *)
+Definition run_case (p : profile) (d : dump) : c14_out := run_case_nm (fun _ _ => None) p d.
 
 (* the same observables computed from the BYTES of a dump: C02's reader model (decode_dump), MinidumpInfo::new (dump_of_view), then
    the process state; None = Minidump::read or process_minidump fails (no header / thread list / system info) *)
